@@ -4,10 +4,10 @@
 use std::sync::Mutex;
 
 use emit::span::{SpanCtxt, SpanId, TraceId};
-use emit::Frame;
+use emit::{Frame, Props};
 
 use crate::exec::{alternating, block_on, catch_fut, catch_planned, join, planned_panic, yield_now, BoxFut};
-use crate::rt::Rt;
+use crate::rt::{Rt, TCtxt};
 use crate::tree::{Form, IdForm, Incoming, PItem, PNode, RunHow};
 
 /// `SpanCtxt::current(rt.ctxt())` at check point `id`.
@@ -17,34 +17,48 @@ pub struct Obs {
     pub trace: Option<u128>,
     pub parent: Option<u64>,
     pub span: Option<u64>,
+    /// how many times the `span_id` key is listed by the ambient props at this point (classification only:
+    /// a context may list a key more than once, the first occurrence is the one that counts)
+    pub span_id_listed: usize,
 }
 
-pub struct Env<'a> {
-    pub rt: &'a Rt,
+pub struct Env<'a, C: TCtxt> {
+    pub rt: &'a Rt<C>,
     pub obs: &'a Mutex<Vec<Obs>>,
     /// first panic caught on a hop thread (signature, message)
     pub fail: &'a Mutex<Option<vcore::Fail>>,
     /// frames captured by `CaptureFrame` items, by slot, until a `RunFrame` takes them
-    pub frames: &'a [Mutex<Option<CapturedFrame>>],
+    pub frames: &'a [Mutex<Option<CapturedFrame<C>>>],
 }
 
-/// (the ctxt is `Copy`: the frame owns a copy, so it borrows nothing)
-pub type CapturedFrame = Frame<emit::platform::thread_local_ctxt::ThreadLocalCtxt>;
+/// (the frame owns a clone of the ctxt value, so it borrows nothing)
+pub type CapturedFrame<C> = Frame<C>;
 
 /// reserved check id: the ambient context of a fresh poll thread right after a poll that ran there
 pub const POLL_THREAD_END: usize = usize::MAX;
 
-fn check(env: &Env, id: usize) {
+fn check<C: TCtxt>(env: &Env<C>, id: usize) {
     let c = SpanCtxt::current(env.rt.ctxt());
+    let span_id_listed = env.rt.ctxt().with_current(|current| {
+        let mut n = 0;
+        let _ = current.for_each(|k, _| {
+            if k.get() == "span_id" {
+                n += 1;
+            }
+            std::ops::ControlFlow::Continue(())
+        });
+        n
+    });
     env.obs.lock().unwrap().push(Obs {
         id,
         trace: c.trace_id().map(|t| t.to_u128()),
         parent: c.span_parent().map(|s| s.to_u64()),
         span: c.span_id().map(|s| s.to_u64()),
+        span_id_listed,
     });
 }
 
-fn event(env: &Env, id: usize) {
+fn event<C: TCtxt>(env: &Env<C>, id: usize) {
     emit::emit!(rt: env.rt, "event {eid}", eid: id as u64);
 }
 
@@ -52,12 +66,12 @@ fn event(env: &Env, id: usize) {
 // span call sites, sync
 
 #[emit::span(rt: env.rt, mdl: emit::Path::new_raw(node.mdl), "sync_fn")]
-fn span_sync_fn(env: &Env, node: &PNode) {
+fn span_sync_fn<C: TCtxt>(env: &Env<C>, node: &PNode) {
     check(env, node.pre);
     run_sync(env, &node.items);
 }
 
-fn span_manual_call(env: &Env, node: &PNode) {
+fn span_manual_call<C: TCtxt>(env: &Env<C>, node: &PNode) {
     let (mut guard, frame) = emit::new_span!(rt: env.rt, mdl: emit::Path::new_raw(node.mdl), "manual_call");
     frame.call(move || {
         guard.start();
@@ -67,7 +81,7 @@ fn span_manual_call(env: &Env, node: &PNode) {
     })
 }
 
-fn span_manual_enter(env: &Env, node: &PNode) {
+fn span_manual_enter<C: TCtxt>(env: &Env<C>, node: &PNode) {
     let (guard, mut frame) = emit::new_span!(rt: env.rt, mdl: emit::Path::new_raw(node.mdl), "manual_enter");
     {
         let _entered = frame.enter();
@@ -82,20 +96,20 @@ fn span_manual_enter(env: &Env, node: &PNode) {
 }
 
 #[emit::span(rt: env.rt, guard: span, mdl: emit::Path::new_raw(node.mdl), "guard_sync")]
-fn span_guard_sync(env: &Env, node: &PNode) {
+fn span_guard_sync<C: TCtxt>(env: &Env<C>, node: &PNode) {
     check(env, node.pre);
     run_sync(env, &node.items);
     span.complete();
 }
 
 #[emit::span(rt: env.rt, when: emit::filter::from_fn(|_| node.enabled), mdl: emit::Path::new_raw(node.mdl), "when_sync")]
-fn span_when_sync(env: &Env, node: &PNode) {
+fn span_when_sync<C: TCtxt>(env: &Env<C>, node: &PNode) {
     check(env, node.pre);
     run_sync(env, &node.items);
 }
 
 #[emit::span(rt: env.rt, ok_lvl: emit::Level::Debug, mdl: emit::Path::new_raw(node.mdl), "result_sync")]
-fn span_result_sync(env: &Env, node: &PNode) -> Result<(), std::io::Error> {
+fn span_result_sync<C: TCtxt>(env: &Env<C>, node: &PNode) -> Result<(), std::io::Error> {
     check(env, node.pre);
     run_sync(env, &node.items);
     if node.id % 2 == 1 {
@@ -108,12 +122,12 @@ fn span_result_sync(env: &Env, node: &PNode) -> Result<(), std::io::Error> {
 // span call sites, async
 
 #[emit::span(rt: env.rt, mdl: emit::Path::new_raw(node.mdl), "async_fn")]
-async fn span_async_fn(env: &Env<'_>, node: &PNode) {
+async fn span_async_fn<C: TCtxt>(env: &Env<'_, C>, node: &PNode) {
     check(env, node.pre);
     run_async(env, &node.items).await;
 }
 
-async fn span_manual_future(env: &Env<'_>, node: &PNode) {
+async fn span_manual_future<C: TCtxt>(env: &Env<'_, C>, node: &PNode) {
     let (mut guard, frame) = emit::new_span!(rt: env.rt, mdl: emit::Path::new_raw(node.mdl), "manual_future");
     frame
         .in_future(async move {
@@ -126,14 +140,14 @@ async fn span_manual_future(env: &Env<'_>, node: &PNode) {
 }
 
 #[emit::span(rt: env.rt, guard: span, mdl: emit::Path::new_raw(node.mdl), "guard_async")]
-async fn span_guard_async(env: &Env<'_>, node: &PNode) {
+async fn span_guard_async<C: TCtxt>(env: &Env<'_, C>, node: &PNode) {
     check(env, node.pre);
     run_async(env, &node.items).await;
     span.complete();
 }
 
 #[emit::span(rt: env.rt, err_lvl: emit::Level::Warn, mdl: emit::Path::new_raw(node.mdl), "result_async")]
-async fn span_result_async(env: &Env<'_>, node: &PNode) -> Result<(), std::io::Error> {
+async fn span_result_async<C: TCtxt>(env: &Env<'_, C>, node: &PNode) -> Result<(), std::io::Error> {
     check(env, node.pre);
     run_async(env, &node.items).await;
     if node.id % 2 == 1 {
@@ -145,7 +159,7 @@ async fn span_result_async(env: &Env<'_>, node: &PNode) -> Result<(), std::io::E
 // ---------------------------------------------------------------------------------------------
 // span call sites where the span's OWN frame (the one `new_span!` returns) travels to another thread
 
-fn park(env: &Env, r: std::thread::Result<Result<(), vcore::Fail>>) {
+fn park<C: TCtxt>(env: &Env<C>, r: std::thread::Result<Result<(), vcore::Fail>>) {
     let fail = match r {
         Ok(Ok(())) => return,
         Ok(Err(f)) => f,
@@ -154,7 +168,7 @@ fn park(env: &Env, r: std::thread::Result<Result<(), vcore::Fail>>) {
     env.fail.lock().unwrap().get_or_insert(fail);
 }
 
-fn span_handoff_call(env: &Env, node: &PNode) {
+fn span_handoff_call<C: TCtxt>(env: &Env<C>, node: &PNode) {
     let (mut guard, frame) = emit::new_span!(rt: env.rt, mdl: emit::Path::new_raw(node.mdl), "handoff_call");
     let r = std::thread::scope(|s| {
         s.spawn(move || {
@@ -177,14 +191,14 @@ fn span_handoff_call(env: &Env, node: &PNode) {
 }
 
 /// The far thread is a worker: after the span's frame has been left it goes on with unrelated work.
-fn far_side_goes_on(env: &Env, node: &PNode) {
+fn far_side_goes_on<C: TCtxt>(env: &Env<C>, node: &PNode) {
     if let Some(id) = node.far_end {
         check(env, id);
     }
     run_sync(env, &node.after);
 }
 
-fn span_handoff_in_fn(env: &Env, node: &PNode) {
+fn span_handoff_in_fn<C: TCtxt>(env: &Env<C>, node: &PNode) {
     let (mut guard, frame) = emit::new_span!(rt: env.rt, mdl: emit::Path::new_raw(node.mdl), "handoff_in_fn");
     let on_thread = frame.in_fn(move || {
         guard.start();
@@ -204,7 +218,7 @@ fn span_handoff_in_fn(env: &Env, node: &PNode) {
     park(env, r);
 }
 
-fn span_handoff_enter_back(env: &Env, node: &PNode) {
+fn span_handoff_enter_back<C: TCtxt>(env: &Env<C>, node: &PNode) {
     let (mut guard, mut frame) = emit::new_span!(rt: env.rt, mdl: emit::Path::new_raw(node.mdl), "handoff_enter_back");
     let r = std::thread::scope(|s| {
         s.spawn(move || {
@@ -232,7 +246,7 @@ fn span_handoff_enter_back(env: &Env, node: &PNode) {
     }
 }
 
-async fn span_handoff_future(env: &Env<'_>, node: &PNode) {
+async fn span_handoff_future<C: TCtxt>(env: &Env<'_, C>, node: &PNode) {
     let (mut guard, frame) = emit::new_span!(rt: env.rt, mdl: emit::Path::new_raw(node.mdl), "handoff_future");
     alternating(
         frame.in_future(async move {
@@ -250,7 +264,7 @@ async fn span_handoff_future(env: &Env<'_>, node: &PNode) {
 // ---------------------------------------------------------------------------------------------
 // dispatch
 
-fn span_sync(env: &Env, node: &PNode) {
+fn span_sync<C: TCtxt>(env: &Env<C>, node: &PNode) {
     match node.form {
         Form::SyncFn => span_sync_fn(env, node),
         Form::ManualCall => span_manual_call(env, node),
@@ -268,7 +282,7 @@ fn span_sync(env: &Env, node: &PNode) {
     }
 }
 
-fn span_async<'a>(env: &'a Env<'a>, node: &'a PNode) -> BoxFut<'a> {
+fn span_async<'a, C: TCtxt>(env: &'a Env<'a, C>, node: &'a PNode) -> BoxFut<'a> {
     match node.form {
         Form::AsyncFn => Box::pin(span_async_fn(env, node)),
         Form::ManualFuture => Box::pin(span_manual_future(env, node)),
@@ -282,7 +296,7 @@ fn span_async<'a>(env: &'a Env<'a>, node: &'a PNode) -> BoxFut<'a> {
     }
 }
 
-pub fn run_sync(env: &Env, items: &[PItem]) {
+pub fn run_sync<C: TCtxt>(env: &Env<C>, items: &[PItem]) {
     for it in items {
         match it {
             PItem::Span(n) => {
@@ -341,7 +355,7 @@ pub fn run_sync(env: &Env, items: &[PItem]) {
     }
 }
 
-pub fn run_async<'a>(env: &'a Env<'a>, items: &'a [PItem]) -> BoxFut<'a> {
+pub fn run_async<'a, C: TCtxt>(env: &'a Env<'a, C>, items: &'a [PItem]) -> BoxFut<'a> {
     Box::pin(async move {
         for it in items {
             match it {
@@ -410,7 +424,7 @@ pub fn run_async<'a>(env: &'a Env<'a>, items: &'a [PItem]) -> BoxFut<'a> {
 
 /// The task futures are created here, in the context of the joining code (like `join!(a(), b())`);
 /// with `carry` each one is additionally wrapped in the current frame (like a spawned task would be).
-fn spawn_tasks<'a>(env: &'a Env<'a>, carry: bool, tasks: &'a [Vec<PItem>]) -> Vec<BoxFut<'a>> {
+fn spawn_tasks<'a, C: TCtxt>(env: &'a Env<'a, C>, carry: bool, tasks: &'a [Vec<PItem>]) -> Vec<BoxFut<'a>> {
     tasks
         .iter()
         .map(|t| -> BoxFut<'a> {
@@ -424,7 +438,7 @@ fn spawn_tasks<'a>(env: &'a Env<'a>, carry: bool, tasks: &'a [Vec<PItem>]) -> Ve
 }
 
 /// Continue on a fresh thread (joined before going on, so the case stays deterministic).
-fn hop(env: &Env, carry: bool, fut: bool, items: &[PItem], pre: usize, end: usize, after: &[PItem]) {
+fn hop<C: TCtxt>(env: &Env<C>, carry: bool, fut: bool, items: &[PItem], pre: usize, end: usize, after: &[PItem]) {
     let frame = if carry { Some(Frame::current(env.rt.ctxt())) } else { None };
     let r = std::thread::scope(|s| {
         s.spawn(move || {
@@ -469,8 +483,8 @@ fn hop(env: &Env, carry: bool, fut: bool, items: &[PItem], pre: usize, end: usiz
 // ---------------------------------------------------------------------------------------------
 // non-span frames captured at one point and entered at another
 
-fn capture_frame(env: &Env, slot: usize, props: bool) {
-    let ctxt = *env.rt.ctxt();
+fn capture_frame<C: TCtxt>(env: &Env<C>, slot: usize, props: bool) {
+    let ctxt = env.rt.ctxt().clone();
     let frame = if props {
         let job = slot as u64;
         Frame::push(ctxt, emit::props! { job })
@@ -480,7 +494,7 @@ fn capture_frame(env: &Env, slot: usize, props: bool) {
     *env.frames[slot].lock().unwrap() = Some(frame);
 }
 
-fn run_frame_elsewhere(env: &Env, frame: Option<CapturedFrame>, items: &[PItem], pre: usize, end: Option<usize>) {
+fn run_frame_elsewhere<C: TCtxt>(env: &Env<C>, frame: Option<CapturedFrame<C>>, items: &[PItem], pre: usize, end: Option<usize>) {
     let r = std::thread::scope(|s| {
         s.spawn(move || {
             vcore::catch(move || {
@@ -524,7 +538,7 @@ pub fn hex16(v: u64, upper: bool) -> String {
     }
 }
 
-pub fn run_root(env: &Env, incoming: Option<&Incoming>, items: &[PItem], final_check: usize) {
+pub fn run_root<C: TCtxt>(env: &Env<C>, incoming: Option<&Incoming>, items: &[PItem], final_check: usize) {
     match incoming {
         None => run_sync(env, items),
         Some(inc) => {
